@@ -87,7 +87,7 @@ int main(int argc, char** argv) {
   for (nops = 0; nops < ops; nops++) {
     int r = (int)vf_randn((uint64_t)total);
     if (nops % 500 == 499) op_checkall();
-    else if (seg_snap_on && nops % 100 == 50) emit_segs();
+    else if (seg_snap_on && nops % 100 == 50) { emit_segs(); emit_heaps(); }
 #if defined(VF_SHIM)
     if (clock_on && vf_randn(3) == 0) vf_clock_advance((long)vf_randn(clock_on));
 #endif
